@@ -1332,8 +1332,14 @@ class SFTPUnknownPrincipal(SFTPError):
     def encode(self, version: int) -> bytes:
         """Encode an SFTPUnknownPrincipal as bytes in an SSHPacket"""
 
-        return super().encode(version) + \
-            b''.join(String(name) for name in self.unknown_names)
+        result = super().encode(version)
+
+        # Versions which don't know this error get a plain failure status,
+        # which has no room for the list of names
+        if version > 4:
+            result += b''.join(String(name) for name in self.unknown_names)
+
+        return result
 
     def decode(self, packet: SSHPacket) -> None:
         """Decode error-specific data"""
